@@ -420,6 +420,12 @@ class MultiAgentProblem(  # type: ignore[misc]
                 self._update_problem_kind_effect(e)
         elif isinstance(action, up.model.action.DurativeAction):
             self._kind.set_time("CONTINUOUS_TIME")
+            for cl in action.conditions.values():
+                for c in cl:
+                    self._update_problem_kind_condition(c)
+            for el in action.effects.values():
+                for e in el:
+                    self._update_problem_kind_effect(e)
         else:
             raise NotImplementedError
 
